@@ -63,6 +63,14 @@ def case_variants(text: str):
                 if mask >> k & 1:
                     chars[i] = chars[i].lower()
             yield "".join(chars)
+    # the printed form (blocks of four) with further white-space around / inside it
+    f4 = ri.formatted(text)
+    for w in WS:
+        yield f4 + w
+        yield w + f4
+        yield f4.replace(" ", w, 1)
+        yield f4[::-1].replace(" ", w, 1)[::-1]
+        yield f4.lower() + w
     # case and white-space together
     yield " ".join(text.lower())
     yield "\t" + ri.formatted(text).lower() + "\n"
@@ -136,9 +144,37 @@ def texts_for_country(country: str, tier: str):
     return list(dict.fromkeys(out))
 
 
+def bban_problems(country: str, body: str):
+    """BBAN objects built directly: the same value however the text is spaced or cased."""
+    probs = []
+    k0, ref = lib.outcome(lib.BBAN, country, body)
+    if k0 != "ok":
+        return [("bban:constructor-raises", "object", (k0, ref))]
+    variants = [body.lower(), " ".join(body), body[:3] + "\t" + body[3:].lower(), " " + body + "\n",
+                ri.formatted(body), ri.formatted(body).lower() + "\u00a0"]
+    for v in variants:
+        k, o = lib.outcome(lib.BBAN, country, v)
+        if k != "ok":
+            probs.append(("bban:variant-raises", str(ref), (v, k, o)))
+            continue
+        if not (o == ref) or str(o) != body or o.compact != body or hash(o) != hash(ref):
+            probs.append(("bban:variant-object-not-equal", body, (v, str(o))))
+        elif any(getattr(o, n) != getattr(ref, n) for n in ("bank_code", "account_code", "branch_code")):
+            probs.append(("bban:variant-components-differ", body, v))
+    return probs
+
+
 def shard(args):
     kind, key, tier = args
     part = par.Part()
+    if kind == "iban":
+        cobj = reg.countries()[key]
+        for f in ("distinct", "letters"):
+            body = bases.bban(cobj, f)
+            part["evals"] += 7
+            part.seen.add(hash(("bban", key, body)))
+            for sig, exp, obs in bban_problems(key, body):
+                part.violation(sig, {"kind": "c10bban", "country": key, "bban": body}, exp, obs)
     texts = texts_for_country(key, tier) if kind == "iban" else [key]
     for ti, canonical in enumerate(texts):
         gens = [case_variants(canonical)]
@@ -160,6 +196,9 @@ def shard(args):
 
 
 def replay(case: dict) -> dict:
+    if case.get("kind") == "c10bban":
+        probs = bban_problems(case["country"], case["bban"])
+        return {"ok": not probs, "observed": [(p[0], p[2]) for p in probs]}
     probs = judge(case["type"], case["canonical"], case["variant"])
     return {"ok": not probs, "observed": [(p[0], p[2]) for p in probs], "expected": [p[1] for p in probs]}
 
